@@ -213,65 +213,73 @@ Record row_class (R : Type) := {
   rc_space_dim : R -> nat;            (* Row::space_dimension() *)
   rc_grow : nat -> R -> R;            (* Row::set_space_dimension_no_ok(d), d >= space_dimension() *)
   rc_wf : R -> Prop;                  (* the row can be dumped at all (type() does not throw) *)
+  rc_min_ok : R -> bool;              (* enough coefficients for Row::space_dimension() not to wrap around *)
 }.
 Arguments rc_dump {R}. Arguments rc_load {R}. Arguments rc_space_dim {R}. Arguments rc_grow {R}. Arguments rc_wf {R}.
+Arguments rc_min_ok {R}.
 
 Definition constraint_class : row_class crow :=
   {| rc_dump := dump_constraint; rc_load := load_constraint;
      rc_space_dim := fun r => length (c_expr r) - 1 - (if c_nnc r then 1 else 0);
      rc_grow := fun d r => if c_nnc r then CRow (grow_keep_last (d + 2) (c_expr r)) (c_eq r) (c_nnc r)
                            else CRow (grow_plain (d + 1) (c_expr r)) (c_eq r) (c_nnc r);
-     rc_wf := wf_crow |}.
+     rc_wf := wf_crow;
+     rc_min_ok := fun r => ((if c_nnc r then 2 else 1) <=? length (c_expr r))%nat |}.
 Definition generator_class : row_class genrow :=
   {| rc_dump := dump_generator; rc_load := load_generator;
      rc_space_dim := fun r => length (g_expr r) - 1 - (if g_nnc r then 1 else 0);
      rc_grow := fun d r => if g_nnc r then GRow (grow_keep_last (d + 2) (g_expr r)) (g_line r) (g_nnc r)
                            else GRow (grow_plain (d + 1) (g_expr r)) (g_line r) (g_nnc r);
-     rc_wf := wf_genrow |}.
+     rc_wf := wf_genrow;
+     rc_min_ok := fun r => ((if g_nnc r then 2 else 1) <=? length (g_expr r))%nat |}.
 Definition congruence_class : row_class cgrow :=
   {| rc_dump := dump_congruence; rc_load := load_congruence;
      rc_space_dim := fun r => length (cg_expr r) - 1;
      rc_grow := fun d r => CgRow (grow_plain (d + 1) (cg_expr r)) (cg_mod r);
-     rc_wf := fun _ => True |}.
+     rc_wf := fun _ => True;
+     rc_min_ok := fun r => (1 <=? length (cg_expr r))%nat |}.
 Definition grid_generator_class : row_class ggrow :=
   {| rc_dump := dump_grid_generator; rc_load := load_grid_generator;
      rc_space_dim := fun r => length (gg_expr r) - 2;
      rc_grow := fun d r => GgRow (grow_keep_last (d + 2) (gg_expr r)) (gg_line r);
-     rc_wf := fun _ => True |}.
+     rc_wf := fun _ => True;
+     rc_min_ok := fun r => (2 <=? length (gg_expr r))%nat |}.
 
 (** a row is well-formed for a system of dimension [d] when its own dimension is [d] and it has
     at least the special columns (so that the subtraction above is exact) *)
 Definition row_fits {R} (C : row_class R) (d : nat) (r : R) : Prop :=
-  rc_space_dim C r = d /\ rc_grow C d r = r /\ rc_wf C r.
+  rc_space_dim C r = d /\ rc_grow C d r = r /\ rc_wf C r /\ rc_min_ok C r = true.
 
 Lemma crow_fits : forall d r, length (c_expr r) = d + 1 + (if c_nnc r then 1 else 0) -> row_fits constraint_class d r.
 Proof.
-  intros d [e q n] H. cbn [c_expr c_nnc] in H. unfold row_fits. cbn [rc_space_dim rc_grow rc_wf constraint_class c_expr c_eq c_nnc]. split; [|split].
+  intros d [e q n] H. cbn [c_expr c_nnc] in H. unfold row_fits. cbn [rc_space_dim rc_grow rc_wf rc_min_ok constraint_class c_expr c_eq c_nnc]. split; [|split; [|split]].
   - destruct n; lia.
   - destruct n.
     + replace (d + 2) with (length e) by lia. rewrite grow_keep_last_same. reflexivity.
     + replace (d + 1) with (length e) by lia. rewrite grow_plain_same. reflexivity.
   - unfold wf_crow, c_eps_ok. cbn [c_expr c_eq c_nnc]. destruct q, n; cbn [orb negb]; try reflexivity.
     apply Nat.leb_le. lia.
+  - apply Nat.leb_le. destruct n; lia.
 Qed.
 Lemma genrow_fits : forall d r, length (g_expr r) = d + 1 + (if g_nnc r then 1 else 0) -> row_fits generator_class d r.
 Proof.
-  intros d [e q n] H. cbn [g_expr g_nnc] in H. unfold row_fits. cbn [rc_space_dim rc_grow rc_wf generator_class g_expr g_line g_nnc]. split; [|split].
+  intros d [e q n] H. cbn [g_expr g_nnc] in H. unfold row_fits. cbn [rc_space_dim rc_grow rc_wf rc_min_ok generator_class g_expr g_line g_nnc]. split; [|split; [|split]].
   - destruct n; lia.
   - destruct n.
     + replace (d + 2) with (length e) by lia. rewrite grow_keep_last_same. reflexivity.
     + replace (d + 1) with (length e) by lia. rewrite grow_plain_same. reflexivity.
   - unfold wf_genrow, g_eps_ok. cbn [g_expr g_line g_nnc]. destruct q, n, (hd 0 e =? 0)%Z; cbn [orb negb]; try reflexivity.
     apply Nat.leb_le. lia.
+  - apply Nat.leb_le. destruct n; lia.
 Qed.
 Lemma cgrow_fits : forall d r, length (cg_expr r) = d + 1 -> row_fits congruence_class d r.
 Proof.
-  intros d [e m] H. cbn [cg_expr] in H. unfold row_fits. cbn [rc_space_dim rc_grow rc_wf congruence_class cg_expr cg_mod]. split; [lia|split; [|exact I]].
+  intros d [e m] H. cbn [cg_expr] in H. unfold row_fits. cbn [rc_space_dim rc_grow rc_wf rc_min_ok congruence_class cg_expr cg_mod]. split; [lia|split; [|split; [exact I|apply Nat.leb_le; lia]]].
   replace (d + 1) with (length e) by lia. rewrite grow_plain_same. reflexivity.
 Qed.
 Lemma ggrow_fits : forall d r, length (gg_expr r) = d + 2 -> row_fits grid_generator_class d r.
 Proof.
-  intros d [e m] H. cbn [gg_expr] in H. unfold row_fits. cbn [rc_space_dim rc_grow rc_wf grid_generator_class gg_expr gg_line]. split; [lia|split; [|exact I]].
+  intros d [e m] H. cbn [gg_expr] in H. unfold row_fits. cbn [rc_space_dim rc_grow rc_wf rc_min_ok grid_generator_class gg_expr gg_line]. split; [lia|split; [|split; [exact I|apply Nat.leb_le; lia]]].
   replace (d + 2) with (length e) by lia. rewrite grow_keep_last_same. reflexivity.
 Qed.
 
@@ -289,7 +297,10 @@ Definition sys_insert (st : nat * list R) (r : R) : nat * list R :=
 Fixpoint load_rows (n : nat) (st : nat * list R) : parser (nat * list R) :=
   match n with
   | O => ret st
-  | S k => r <- rc_load C ;; load_rows k (sys_insert st r)
+  | S k => r <- rc_load C ;;
+           (* with too few coefficients Row::space_dimension() wraps around and the insertion throws
+              std::length_error (or, for a row of size 0, crashes: a known finding) *)
+           guard (rc_min_ok C r) ;;; load_rows k (sys_insert st r)
   end.
 
 Lemma load_rows_RT : forall l sd acc rest, Forall (row_fits C sd) l ->
@@ -297,8 +308,8 @@ Lemma load_rows_RT : forall l sd acc rest, Forall (row_fits C sd) l ->
 Proof.
   induction l as [|r t IH]; intros sd acc rest HF.
   - cbn. rewrite app_nil_r. reflexivity.
-  - inversion HF as [|? ? Hfit HF']; subst. destruct Hfit as (Hd & Hg & Hw).
-    cbn [length load_rows w_many]. unfold bind. rewrite (C_RT r _ Hw).
+  - inversion HF as [|? ? Hfit HF']; subst. destruct Hfit as (Hd & Hg & Hw & Hm).
+    cbn [length load_rows w_many]. unfold bind. rewrite (C_RT r _ Hw). rewrite Hm. unfold guard, ret.
     unfold sys_insert. rewrite Hd, Nat.ltb_irrefl, Hg.
     rewrite (IH sd (acc ++ [r]) rest HF'). rewrite <- app_assoc. reflexivity.
 Qed.
